@@ -33,6 +33,18 @@ EXTRA = [
    'Th(x) :- Ev(x), Od(x + 1);\nQ(x, {p: x}) :- Ev(x) | Od(x) | Th(x);', ['Q']),
   ('psql_typed_mutual', '@Engine("psql");\nA(0, "z");\nB(x + 1, s) :- A(x, s), x < 3;\nC(x, s ++ "c") :- B(x, s);\n'
    'A(x + 1, s) :- C(x, s), B(x, s);\nQ(x, [s]) :- A(x, s) | B(x, s) | C(x, s);', ['Q']),
+  # a whole-row variable of a type-checked SQLite program whose row type went through record unification
+  ('sqlite_row_record', '@Engine("sqlite", type_checking: true);\nT(alpha: 1, beta: "x", gamma: 3, delta: 4, epsilon: 5);\n'
+   'T(alpha: 2, beta: "y", gamma: 7, delta: 8, epsilon: 9);\nQ(r) :- T(..r), r.gamma > 1;\n'
+   'Q2(r, s) :- T(..r), T(..s), r.alpha < s.alpha, s.epsilon > r.delta;', ['Q', 'Q2']),
+  # three custom aggregations over three semigroup UDFs (PostgreSQL): the definitions are emitted in one fixed order
+  ('psql_three_semigroups', '@Engine("psql");\nT(1, 2); T(3, 4);\n@CompileAsUdf(S1);\nS1(a, b) = a + b;\n'
+   '@BareAggregation(AggA, semigroup: S1);\n@CompileAsUdf(S2);\nS2(a, b) = a * b;\n@BareAggregation(AggB, semigroup: S2);\n'
+   '@CompileAsUdf(S3);\nS3(a, b) = a - b;\n@BareAggregation(AggC, semigroup: S3);\n'
+   'Q(x? AggA= a, y? AggB= b, z? AggC= a) distinct :- T(a, b);', ['Q']),
+  # one name that is a plain function in one program and an SQL UDF in another (histories)
+  ('half_as_function', '@Engine("bigquery");\nHalf(x) = x / 2;\nShift(x) = Half(x) + 1;\nQ(Shift(4), Half(2));', ['Q']),
+  ('half_as_udf', '@Engine("bigquery");\nHalf(x) --> x / 2;\nShift(x) --> Half(x) + 1;\nQ(Shift(4), Half(2));', ['Q']),
   ('functor_many', '@Engine("sqlite");\nK(x) :- A(x);\nM(x) :- K(x), B(x);\nF(x) :- M(x);\nN1 := F(A: C);\nN2 := F(B: C);\n'
    'N3 := F(A: B, B: A);\nQ(x) :- N1(x) | N2(x) | N3(x);', ['Q']),
 ]
@@ -42,11 +54,13 @@ EXTRA = [
 # base name, one program imports one of them alone, another imports both (prefixes depend on the importing program)
 LIB_FILES = {'north/util.l': 'Items(x) :- x in [1, 2];\nHelper(x) :- Items(x), x > 1;\n',
              'south/util.l': 'Things(x) :- x in [10];\nHelper(x) :- Things(x);\n',
-             'deep/chain.l': 'import north.util.Helper;\nChain(x + 1) :- Helper(x);\n'}
+             'deep/chain.l': 'import north.util.Helper;\nChain(x + 1) :- Helper(x);\n',
+             'twin/util.l': 'Item(1);\nUtil_Item(2);\nBoth(x) :- Item(x) | Util_Item(x);\n'}
 IMPORTING = [
   ('imp_north_only', '@Engine("sqlite");\nimport north.util.Items;\nQ(x) :- Items(x);', ['Q']),
   ('imp_south_then_north', '@Engine("sqlite");\nimport south.util.Things;\nimport north.util.Items;\nQ(x) :- Things(x) | Items(x);', ['Q']),
   ('imp_north_then_south', '@Engine("sqlite");\nimport north.util.Helper;\nimport south.util.Helper as H2;\nQ(x) :- Helper(x) | H2(x);', ['Q']),
+  ('imp_prefixed_twin', '@Engine("sqlite");\nimport twin.util.Both;\nQ(x) :- Both(x);', ['Q']),
   ('imp_chain', '@Engine("sqlite");\nimport deep.chain.Chain;\nimport south.util.Helper;\nQ(x) :- Chain(x) | Helper(x);', ['Q']),
 ]
 _LIB_ROOT = []
